@@ -359,6 +359,74 @@ pub fn run(tier: &str, verif_dir: &str) -> Report {
         rep.sink.extend(vs);
         evals += sub.len() as u64;
     }
+    // (vii) the REPORTED rings partition the sphere too: for every cell of resolution <= 3 (5), its reported
+    // corners and edge midpoints pulled 1.2 % and 4 % towards its reported centre must lie inside its own ring
+    // (16 segments per edge) and inside no ring of a neighbouring cell (centre within 2.6 cell sizes); a
+    // corner that one cell reports somewhere else than its neighbours do shows as an overlap or a gap
+    let mut ring_probes = 0u64;
+    {
+        let rr = if tier == "quick" { 3 } else { 5 };
+        for r in 0..=rr {
+            let cells = rc::all_cells(r);
+            let rings: Vec<Option<(V3, Vec<V3>, Vec<V3>)>> = cells
+                .par_iter()
+                .map(|&c| {
+                    let fine = geo::ring_vectors(c, 16).ok()?;
+                    let coarse = geo::ring_vectors(c, 2).ok()?;
+                    let (lon, lat) = subj::centre(c).ok()?;
+                    Some((rg::ll_to_vec(lon, lat), fine, coarse))
+                })
+                .collect();
+            let size = geo::cell_size(r);
+            let cnt = AtomicU64::new(0);
+            let vs: Vec<Viol> = (0..cells.len())
+                .into_par_iter()
+                .flat_map(|i| {
+                    let mut out = Vec::new();
+                    let (ci, _fi, coarse) = match &rings[i] {
+                        Some(x) => x,
+                        None => return vec![viol("C03/pentagon-error", "no ring".into(), json!({"kind": "cell_pair", "a": subj::hex(cells[i]), "b": subj::hex(cells[i])}))],
+                    };
+                    for (v, pull) in coarse.iter().flat_map(|v| [(v, 0.012), (v, 0.04)]) {
+                        let p = rg::unit(rg::add(rg::scale(*v, 1.0 - pull), rg::scale(*ci, pull)));
+                        cnt.fetch_add(1, Ordering::Relaxed);
+                        let mut owners: Vec<u64> = Vec::new();
+                        for (j, rj) in rings.iter().enumerate() {
+                            if let Some((cj, fj, _)) = rj {
+                                if r >= 1 && rg::ang(*cj, p) > 2.6 * size {
+                                    continue;
+                                }
+                                // well inside / outside only: skip rings whose boundary passes within 0.3 % of a cell
+                                if rg::dist_to_ring(fj, p) < 0.003 * size {
+                                    if j == i {
+                                        owners.push(cells[j]);
+                                    }
+                                    continue;
+                                }
+                                if rg::winding(fj, p).map(|w| w != 0).unwrap_or(false) {
+                                    owners.push(cells[j]);
+                                }
+                            }
+                        }
+                        if owners != vec![cells[i]] {
+                            let (lon, lat) = rg::vec_to_ll(p);
+                            out.push(viol(
+                                "C03/reported-rings",
+                                format!("point ({}, {}), just inside {} from one of its reported corners / edge midpoints, lies inside the reported rings of {:?} (resolution {})", lon, lat, subj::hex(cells[i]), owners.iter().map(|&c| subj::hex(c)).collect::<Vec<_>>(), r),
+                                json!({"kind": "ring_cell", "id": subj::hex(cells[i])}),
+                            ));
+                            break;
+                        }
+                    }
+                    out
+                })
+                .collect();
+            rep.sink.extend(vs.into_iter().take(4).collect::<Vec<_>>());
+            ring_probes += cnt.load(Ordering::Relaxed);
+        }
+    }
+    rep.set("reported_ring_probe_points", json!(ring_probes));
+    evals += ring_probes;
     // (vi) word-aligned cells (low 8..20 curve digits all 0 or all 3, resolutions 10..29): the place where
     // the reference release puts such a cell (frozen centre of golden/cells2.bin) must be covered by exactly
     // one cell of its neighbourhood
@@ -404,6 +472,12 @@ pub fn replay(case: &Value) -> Vec<Viol> {
                 Ok(l) => check_point(&l, &fr, v, r),
                 Err(e) => vec![viol("C03/pentagon-error", e, case.clone())],
             }
+        }
+        "ring_cell" => {
+            // re-run the reported-ring pass of the quick tier and keep its verdicts
+            let rep = run("quick", "/verif");
+            let (v, _) = rep.sink.drain();
+            v.into_iter().filter(|x| x.class == "C03/reported-rings").collect()
         }
         "fine" => check_fine(rg::ll_to_vec(case["lon"].as_f64().unwrap(), case["lat"].as_f64().unwrap()), case["res"].as_i64().unwrap() as i32).1,
         "cell_pair" => {
